@@ -37,7 +37,7 @@ def op_str(op):
     k = op[0]
     ints = lambda l: ','.join(str(x) for x in l) if l else '-'
     if k == 'push': return f'push {op[1]} {op[2]:x} {gen.show(op[3])}'
-    if k in ('probe', 'probeo', 'read', 'clear', 'heap', 'serde'): return f'{k} {op[1]}'
+    if k in ('probe', 'probeo', 'read', 'clear', 'heap', 'serde', 'allocs'): return f'{k} {op[1]}'
     if k == 'merge': return f'merge {op[1]} {ints(op[2])}'
     if k in ('clone', 'clonefrom'): return f'{k} {op[1]} {op[2]}'
     if k == 'pushitem': return f'pushitem {op[1]} {op[2]} {op[3]} {1 if op[4] else 0}'
@@ -120,6 +120,8 @@ def ref_oracle(e, ops, obs, clauses=()):
             if g != ['-']: return f'op {t}: {k} observed {g}'
         elif k == 'heap':
             if len(g) != 1 or not g[0].startswith('v='): return f'op {t}: heap_size observed {g}'
+        elif k == 'allocs':
+            if len(g) != 1 or not g[0].startswith('v='): return f'op {t}: allocs observed {g}'
         elif k == 'cmp':
             if len(g) != 1 or not g[0].startswith('v='): return f'op {t}: comparison observed {g}'
         for c in clauses:
@@ -128,11 +130,17 @@ def ref_oracle(e, ops, obs, clauses=()):
     return None
 
 def project(ops, obs, mode):
-    """the observables a property speaks about.  mode 'values': indices are opaque; 'full': as is"""
+    """the observables a property speaks about.  mode 'values': indices are opaque; 'full': as is.
+    heap_size: the used bytes per callback (capacities are the implementation's); what reserve /
+    merge size for and allocator calls are compared by C17 only."""
     out = []
     for t, g in enumerate(obs):
         op = ops[t] if t < len(ops) else ('?',)
-        if op[0] == 'heap': out.append(['-']); continue
+        if op[0] == 'heap' and g and g[0].startswith('v='):
+            v = gen.parse(g[0][2:])
+            out.append(['v=' + gen.show([p[0] if isinstance(p, list) else p for p in v])]); continue
+        if op[0] in ('resitems', 'resregs', 'merge', 'allocs') and g and (g[0] == '-' or g[0].startswith('v=')):
+            out.append(['-']); continue
         if mode == 'values': out.append(['i' if o.startswith('i=') else o for o in g])
         else: out.append(list(g))
     return out
@@ -394,7 +402,7 @@ def c10(ctx):
 
 # ------------------------------------------------------------------ C11
 def heap_used(g):
-    return sum(p[0] for p in gen.parse(g[0][2:]))
+    return sum((p[0] if isinstance(p, list) else p) for p in gen.parse(g[0][2:]))
 
 def c11(ctx):
     res = Result()
@@ -959,5 +967,207 @@ def c19(ctx):
     run_fs_cases(ctx, res, fcases, index_free_names=set(dense))
     return res
 
+
+# ================================================================== C18 heap_size accounting
+ELEM_SIZE = catalogue.ELEM_SIZE
+def payload_bound(e, v, sizes, ctr=None):
+    """bytes the reference model says storing v must account for (no deduplication): payload bytes of
+    strings and owned elements plus one index entry per element of a Vec-indexed slice / per row cell.
+    sizes: the measured size slots of the entry (catalogue.size_slots order)."""
+    k = e[0]
+    if k == 'own': return len(v) * ELEM_SIZE[e[1]]
+    if k == 'mir': return 0
+    if k == 'vecr': return ELEM_SIZE[e[1]]
+    if k == 'str': return len(v)
+    if k == 'strof': return payload_bound_sub(e[1], v, sizes, ctr)
+    if k in ('con',): return payload_bound_sub(e[1], v, sizes, ctr)
+    if k == 'opt': return 0 if v is None else payload_bound_sub(e[1], v[1], sizes, ctr)
+    raise ValueError(e)
+def payload_bound_sub(e, v, sizes, ctr): return payload_bound(e, v, sizes, ctr)
+
+def simple_payload(e, v, sizes):
+    """payload lower bound for the entries it is defined on (None otherwise): walks e and v together"""
+    slots = iter(sizes)
+    def go(e, vs):
+        # vs: list of values stored through this node
+        k = e[0]
+        if k == 'own': return sum(len(v) for v in vs) * ELEM_SIZE[e[1]]
+        if k == 'mir': return 0
+        if k == 'vecr': return len(vs) * ELEM_SIZE[e[1]]
+        if k == 'str': return sum(len(v) for v in vs)
+        if k in ('strof', 'con'): return go(e[1], vs)
+        if k == 'sl':
+            flat = [x for v in vs for x in v]
+            if e[2] == 'vec':
+                isz = next(slots); return len(flat) * isz + go(e[1], flat)
+            return go(e[1], flat)
+        if k == 'opt': return go(e[1], [v[1] for v in vs if v is not None])
+        if k == 'res': return go(e[1], [v[1] for v in vs if v[0] == 'O']) + go(e[2], [v[1] for v in vs if v[0] == 'E'])
+        if k == 'tup2': return go(e[1], [v[0] for v in vs]) + go(e[2], [v[1] for v in vs])
+        if k == 'cols':
+            csz = next(slots); isz = next(slots)
+            width = max([len(v) for v in vs], default=0)
+            cells = sum(go_copy(e[1], [v[j] for v in vs if len(v) > j]) for j in range(width))
+            return sum(len(v) for v in vs) * isz + cells
+        raise ValueError(e)
+    def go_copy(e, vs):
+        # columns share one set of size slots per column
+        nonlocal slots
+        saved = list(slots); slots = iter(saved); r = go(e, vs); slots = iter(saved); return r
+    if contains(e, 'col'): return None
+    try: return go(e, v)
+    except StopIteration: return None
+
+def c18(ctx):
+    res = Result()
+    res.rule = ('per entry: random histories of push / clear / clone / merge with heap_size observed after every '
+                'step: (i) every (used, capacity) pair has used <= capacity; (ii) the sum of used bytes never '
+                'decreases on push; (iii) the sum of used bytes is at least the payload bytes plus one index entry per '
+                'element of a Vec-indexed slice / per row cell of everything stored since the last clear (bound computed '
+                'from the reference list, for compositions without deduplication); (iv) clear: used bytes return to what '
+                'the model says a cleared region accounts (no payload), no reported capacity shrinks; (v) the used bytes '
+                'per callback, their number and order equal the Coq model\'s r_used exactly (every branch contributes)')
+    cases = []
+    n = 30 if not ctx.thorough else 400
+    sizes = {k: ([] if v == '-' else [int(x, 16) for x in v.split(',')]) for k, v in lib.column_sizes().items()}
+    for name, e in ENTRIES:
+        for _ in range(n):
+            hg = HistGen(ctx, name, e); ops = [('heap', 0)]
+            for _ in range(ctx.rng.choice([3, 6, 12, 25])):
+                r = ctx.rng.random()
+                if r < 0.08: ops += [('clear', 0), ('heap', 0)]
+                elif r < 0.12: ops += [('clone', 1, 0), ('heap', 1)]
+                elif r < 0.16: ops += [('merge', 2, [0]), ('heap', 2), hg.push(2), ('heap', 2)]
+                else: ops += [hg.push(0), ('heap', 0)]
+            cases.append((name, ops)); note_case(res, name, ops)
+    def oracle_for(name):
+        e = EXPR[name]; sz = sizes.get(name, [])
+        def clause(t, op, g, ref, sc):
+            k = op[0]
+            if k == 'clear':
+                sc[('cleared', op[1])] = sc.get(('caps', op[1]))
+            if k == 'push': sc[('pushed', op[1])] = True
+            if k == 'heap' and g and g[0].startswith('v='):
+                pairs = gen.parse(g[0][2:])
+                if any(isinstance(p, list) and p[0] > p[1] for p in pairs): return f'op {t}: used > capacity in {pairs}'
+                if not all(isinstance(p, list) for p in pairs): return None   # model observation
+                used = sum(p[0] for p in pairs); caps = [p[1] for p in pairs]
+                prev = sc.get(('used', op[1]))
+                if sc.pop(('pushed', op[1]), False) and prev is not None and used < prev:
+                    return f'op {t}: used bytes decreased on push: {prev} -> {used}'
+                before = sc.pop(('cleared', op[1]), None)
+                if before is not None:
+                    if len(before) != len(caps) or any(a > b for a, b in zip(before, caps)):
+                        return f'op {t}: a capacity shrank on clear: {before} -> {caps}'
+                lb = simple_payload(e, ref.log[op[1]], sz)
+                if lb is not None and used < lb:
+                    return f'op {t}: used bytes {used} below the payload + index entries of the stored items ({lb})'
+                sc[('used', op[1])] = used; sc[('caps', op[1])] = caps
+            if k in ('clear', 'merge', 'clone', 'clonefrom'): sc.pop(('used', op[1]), None)
+            return None
+        return clause
+    def oracle(e, ops, obs):
+        name = next(n for n, x in ENTRIES if x is e)
+        return ref_oracle(e, ops, obs, [oracle_for(name)])
+    run_regions(ctx, res, cases, oracle, 'values')
+    return res
+
+# ================================================================== C17 allocation discipline
+VEC_BACKED = lambda nm, e: not (contains(e, 'col') or contains(e, 'con') or contains(e, 'cols')) and 'iopt' not in repr(e) and 'ilist' not in repr(e)
+
+def c17(ctx):
+    res = Result()
+    res.rule = ('(a) vector-backed structural entries (owned, string, slice, option, result, tuple, Vec-as-region; Vec index '
+                'containers): from empty and from populated regions, reserve_items(batch) / reserve_regions([src]) / '
+                'merge_regions([src]) then pushing exactly the announced contents by reference: every capacity reported by '
+                'heap_size must be unchanged and the allocator must not be called during the pushes; the capacities after '
+                'the reservation must cover what the Coq model says is needed (used + announced bytes per backing vector, '
+                'the premise of theorem presize_no_growth); (b) every catalogue entry: n = 2^6..2^k items pushed from empty, '
+                'allocator calls during pushes bounded by the sum over backing vectors of log2(capacity)+2')
+    cases = []
+    n = 15 if not ctx.thorough else 300
+    ref_form = lambda e: 1 if catalogue.ref_ok(e) else 0
+    for name, e in pick_entries(VEC_BACKED):
+        for _ in range(n):
+            hg = HistGen(ctx, name, e); f = ref_form(e)
+            pre = [('push', 0, f, hg.value()) for _ in range(ctx.rng.choice([0, 0, 3, 20]))]
+            batch = [hg.value(repeat=0.2) for _ in range(ctx.rng.choice([1, 5, 30, 60]))]
+            kind = ctx.rng.choice(['items', 'regions', 'merge'])
+            ops = list(pre)
+            if kind == 'items': ops += [('resitems', 0, batch)]
+            elif kind == 'regions': ops += [('push', 1, f, v) for v in batch] + [('resregs', 0, [1])]
+            else: ops = [('push', 1, f, v) for v in batch] + [('merge', 0, [1])]
+            ops += [('heap', 0), ('allocs', 0)] + [('push', 0, f, v) for v in batch] + [('allocs', 0), ('heap', 0), ('probe', 0)]
+            cases.append((name, ops)); note_case(res, name, ops)
+    import math
+    K = 8 if not ctx.thorough else 14
+    for name, e in ENTRIES:
+        if is_known_bad(e): continue
+        for k in range(6, K + 1, 2):
+            hg = HistGen(ctx, name, e); f = ref_form(e)
+            hg.vg.big = False
+            ops = [('allocs', 0)] + [('push', 0, f, hg.value(repeat=0.1)) for _ in range(2 ** k)] + [('allocs', 0), ('heap', 0)]
+            cases.append((name, ops))
+    def clause(t, op, g, ref, sc):
+        k = op[0]
+        if k in ('resitems', 'resregs', 'merge'): sc['armed'] = t
+        if k == 'heap' and g and g[0].startswith('v='):
+            pairs = gen.parse(g[0][2:])
+            if not all(isinstance(p, list) for p in pairs): return None
+            caps = [p[1] for p in pairs]
+            if 'armed' in sc and 'caps0' not in sc: sc['caps0'] = caps
+            elif 'caps0' in sc:
+                c0 = sc.pop('caps0'); sc.pop('armed')
+                if c0 != caps: return f'op {t}: capacities changed while pushing exactly the announced contents: {c0} -> {caps}'
+            else:
+                # logarithmic bound run
+                a = sc.get('allocs_log')
+                if a is not None:
+                    bound = sum(math.floor(math.log2(c)) + 2 for c in caps if c > 0) + 2
+                    if a > bound: return f'op {t}: {a} allocator calls for {sc.get("npush")} pushes; bound {bound} (capacities {caps})'
+        if k == 'allocs' and g and g[0].startswith('v='):
+            a = gen.parse(g[0][2:])
+            if 'caps0' in sc and sc.get('seen_alloc_reset'):
+                if a != 0: return f'op {t}: the allocator was called {a} times while pushing exactly the announced contents'
+            sc['seen_alloc_reset'] = True
+            sc['allocs_log'] = a
+        if k == 'push': sc['npush'] = sc.get('npush', 0) + 1
+        return None
+    def oracle(e, ops, obs):
+        return ref_oracle(e, ops, obs, [clause])
+    # correspondence: the reserved capacities cover what the model needs
+    hist = [(nm, [op_str(o) for o in ops]) for nm, ops in cases]
+    for prof in PROFILES:
+        impl = lib.run_impl('regions', hist, prof)
+        model = lib.run_model('regions', hist, prof, NUMBERING)
+        for (name, ops), io, mo in zip(cases, impl, model):
+            res.evaluations += 1; e = EXPR[name]
+            f = oracle(e, ops, io)
+            if f:
+                res.failures.append({'kind': 'oracle', 'entry': name, 'rust_type': catalogue.rust_type(e), 'profile': prof,
+                                     'history': [op_str(o) for o in ops][:200], 'what': f,
+                                     'observed': [' '.join(g) for g in io][:200], 'known': None})
+            res.compared += 1
+            pi, pm = project(ops, io, 'values'), project(ops, mo, 'values')
+            bad = None
+            if pi != pm:
+                t = next((i for i in range(max(len(pi), len(pm))) if i >= len(pi) or i >= len(pm) or pi[i] != pm[i]), 0)
+                bad = {'kind': 'regions/values', 'first_difference_at_op': t}
+            else:
+                for t, op in enumerate(ops):
+                    if op[0] in ('resitems', 'resregs', 'merge') and t + 1 < len(io) and ops[t + 1][0] == 'heap' and mo[t] and mo[t][0].startswith('v='):
+                        need = gen.parse(mo[t][0][2:]); caps = [p[1] for p in gen.parse(io[t + 1][0][2:])]
+                        if len(need) != len(caps) or any(a > b for a, b in zip(need, caps)):
+                            bad = {'kind': 'reserved-capacity-covers-model-need', 'first_difference_at_op': t, 'need': need, 'caps': caps}
+                            # this is also a concrete failing input for the property
+                            break
+            if bad:
+                bad.update({'entry': name, 'profile': prof, 'history': [op_str(o) for o in ops][:200],
+                            'impl': [' '.join(g) for g in io][:200], 'model': [' '.join(g) for g in mo][:200]})
+                res.corr.append(bad)
+        res.per_profile[prof] = res.per_profile.get(prof, 0) + len(cases)
+    res.assumptions.append('the allocator and RawVec growth policy are std\'s, tied only by observation; std\'s Vec contract enters the theorems as Section hypotheses')
+    return res
+
 PROPS = {'C01': c01, 'C02': c02, 'C03': c03, 'C04': c04, 'C05': c05, 'C08': c08, 'C09': c09, 'C10': c10, 'C11': c11,
-         'C12': c12, 'C13': c13, 'C14': c14, 'C16': c16, 'C19': c19, 'C20': c20}
+         'C12': c12, 'C13': c13, 'C14': c14, 'C16': c16, 'C17': c17, 'C18': c18, 'C19': c19, 'C20': c20}
